@@ -21,7 +21,7 @@ def main() -> int:
         gen_ok = True
         for pid, (name, equiv, _, _) in sorted(gen_targets.SPECS.items()):
             wd = common.WORK / f"build-gen-{pid}"
-            r = common.gen_equiv_compile(wd, name, lambda pid=pid: gen_targets.generate(pid), equiv)
+            r = common.gen_equiv_compile(wd, name, lambda pid=pid: gen_targets.generate(pid), equiv, extra_libs=gen_targets.libs(pid))
             shutil.rmtree(wd, ignore_errors=True)
             print(f"coq/gen/{equiv} against {name} generated from {common.REPO}:", f"ok ({len(r['theorems'])} theorems, {r['wall_s']}s)" if r["ok"] else "FAILED")
             for b in r["broken"]:
@@ -46,7 +46,7 @@ def main() -> int:
         shutil.rmtree(wd, ignore_errors=True)
         gmods, gen_ok = [], True
         for pid, (name, equiv, _, _) in sorted(gen_targets.SPECS.items()):
-            g = common.gen_equiv_compile(wd, name, lambda pid=pid: gen_targets.generate(pid), equiv)
+            g = common.gen_equiv_compile(wd, name, lambda pid=pid: gen_targets.generate(pid), equiv, extra_libs=gen_targets.libs(pid))
             gen_ok = gen_ok and g["ok"]
             if g["ok"]:
                 gmods.append("ShampooGen." + Path(equiv).stem)
